@@ -997,6 +997,12 @@ impl PhysicalOperator for HashJoinExec {
                     }
                     build_batches.extend(batches);
                 }
+                // A build side that delivered no batch at all still has a
+                // schema: outer joins NULL-extend with its column count, so it
+                // must behave exactly like one that delivered an empty batch.
+                if build_batches.is_empty() {
+                    build_batches.push(RecordBatch::new_empty(build_side.schema()));
+                }
                 debug_log(&format!(
                     "Build side collected: {} batches, {} total rows, {} bytes",
                     build_batches.len(),
